@@ -817,3 +817,36 @@ func constArgValues(w *World, fn *ssa.Function, arg ssa.Value, depth int) ([]con
 	}
 	return out, len(out) > 0
 }
+
+func init() {
+	reg("C01-R8", "LSN continuity across log truncation: in NewSamehadaDB, after GCLogFile and after the LSN counter was restored (SetNextLSN), a record with a real LSN (built by a numbered constructor, not the LSN-less DeallocatePage / ReusePage / GracefulShutdown kinds) is appended and flushed before logging is re-activated — otherwise a start during which nothing is logged leaves a log without numbered records and the next start restarts LSNs below the LSNs already on the pages", func(w *World, r *Report) {
+		a := w.A()
+		fn := w.Fn("samehada", "", "NewSamehadaDB")
+		gc := sitesCalling(fn, a.DMGCLogFile)
+		r.Floor("GCLogFile sites", len(gc), 1)
+		isNumberedAppend := func(in ssa.Instruction) bool {
+			c, ok := in.(ssa.CallInstruction)
+			if !ok || CalleeObj(c) != a.LMAppend {
+				return false
+			}
+			args := c.Common().Args
+			return DependsOn(args[len(args)-1], IsCallTo(a.NewLogRecordTxn, a.NewLogRecordInsertDelete, a.NewLogRecordUpdate, a.NewLogRecordNewPage))
+		}
+		wit := (&PathQ{Fn: fn, Avoid: isNumberedAppend, Target: InstrCallsObj(a.LMActivate)}).FromAfter(gc)
+		r.Check(wit == nil, "NewSamehadaDB:numbered-record-after-GC", "the truncated log receives a record with a real LSN before normal operation starts", "path from GCLogFile to ActivateLogging without appending a numbered record: "+w.DescribeWitness(fn, wit))
+		// it is appended after the counter was restored, and flushed
+		wit = (&PathQ{Fn: fn, Avoid: InstrCallsObj(a.LMSetNextLSN), Target: isNumberedAppend}).FromAfter(gc)
+		r.Check(wit == nil, "NewSamehadaDB:numbered-record-after-SetNextLSN", "the record is numbered from the restored counter", "path: "+w.DescribeWitness(fn, wit))
+		var aps []ssa.Instruction
+		for _, b := range fn.Blocks {
+			for _, in := range b.Instrs {
+				if isNumberedAppend(in) {
+					aps = append(aps, in)
+				}
+			}
+		}
+		fs := a.flushSumm()
+		wit = (&PathQ{Fn: fn, Avoid: fs.MustSite, Target: InstrCallsObj(a.LMActivate)}).FromAfter(aps)
+		r.Check(wit == nil && len(aps) > 0, "NewSamehadaDB:numbered-record-flushed", "the record reaches the log file before normal operation starts", "path: "+w.DescribeWitness(fn, wit))
+	})
+}
